@@ -488,6 +488,10 @@ if opts.get("reload"):
     import importlib
     for _ in range(opts["reload"]):
         importlib.reload(pipe)
+if opts.get("warm_clash"):
+    warm_mod = importlib.import_module(pkg + ".warm")
+    dds.eval(warm_mod.warm)
+    pipe.CALLS.clear()
 if opts.get("graph_warmup"):
     dds.eval(pipe.root, dds_export_graph=os.path.join(opts.get("store_dir", base), "g.svg"), dds_extra_debug=True)
     pipe.CALLS.clear()
@@ -534,6 +538,22 @@ def materialise(d):
     for n, src in PKG.items():
         with open(os.path.join(d, "corp", n), "w") as f:
             f.write(src.lstrip("\n"))
+    # a function whose parameters and local variables are named like every module-level name of the package (analysing it
+    # first must not change what those names mean to the functions analysed afterwards)
+    import ast as _ast, keyword as _kw
+    names = set()
+    for n_, src_ in PKG.items():
+        for node in _ast.walk(_ast.parse(src_)):
+            if isinstance(node, (_ast.FunctionDef, _ast.ClassDef)):
+                names.add(node.name)
+            elif isinstance(node, _ast.alias):
+                names.add((node.asname or node.name).split(".")[0])
+            elif isinstance(node, _ast.Name) and isinstance(node.ctx, _ast.Store):
+                names.add(node.id)
+    names = sorted(n_ for n_ in names if n_.isidentifier() and not _kw.iskeyword(n_) and not n_.startswith("__") and n_ != "dds")
+    half = len(names) // 2
+    with open(os.path.join(d, "corp", "warm.py"), "w") as f:
+        f.write("def warm(%s):\n%s    return 0\n" % (", ".join("%s=0" % n_ for n_ in names[:half]), "".join("    %s = 1\n" % n_ for n_ in names[half:])))
     with open(os.path.join(d, "extmod.py"), "w") as f:
         f.write(EXT.lstrip("\n"))
     with open(os.path.join(d, "reexp.py"), "w") as f:
@@ -716,6 +736,7 @@ def main():
                 ("extra_debug off", {"store": "memory", "extra_debug": False}, {}, None, d),
                 ("extra_debug on", {"store": "memory", "extra_debug": True}, {}, None, d),
                 ("after 2 earlier evaluations in the same process", {"store": "memory", "warmup": 2}, {}, None, d),
+                ("after analysing a function whose parameters and locals are named like the module-level names of the package", {"store": "memory", "warm_clash": True}, {}, None, d),
                 ("local store behind the object cache", {"store": "local_cache"}, {}, None, d),
                 ("DBFS store, full commits", {"store": "dbfs", "commit_type": "full"}, {}, None, d),
                 ("DBFS store, links only", {"store": "dbfs", "commit_type": "links_only"}, {}, None, d),
@@ -785,7 +806,7 @@ def main():
     finally:
         shutil.rmtree(tmp, ignore_errors=True)
     print(json.dumps({
-        "scope": {"c01": "a __main__ script through 5 edits; the pipeline on the memory / noop / cache-wrapped local store through 2 edits; %d single edits of a 30-keep pipeline (each dependency kind), value vs plain execution and signature sensitivity" % len(EDITS), "c02": "%d single edits + restart + revert: re-execution only inside the dependency cone" % len(EDITS), "c03": "16 environment variants (hash seeds, cwd, location, symlinked package, symlinked store, 5 store kinds, debug, graph export, reload, history), each with a second evaluation that loads a path committed by the first, + pinned signatures of the corpus"}[mode],
+        "scope": {"c01": "a __main__ script through 5 edits; the pipeline on the memory / noop / cache-wrapped local store through 2 edits; %d single edits of a 30-keep pipeline (each dependency kind), value vs plain execution and signature sensitivity" % len(EDITS), "c02": "%d single edits + restart + revert: re-execution only inside the dependency cone" % len(EDITS), "c03": "17 environment variants (hash seeds, cwd, location, symlinked package, symlinked store, 5 store kinds, debug, graph export, reload, history), each with a second evaluation that loads a path committed by the first, + pinned signatures of the corpus"}[mode],
         "evaluations": evals, "distinct_nontrivial": evals, "rule": "one case per edit (c01/c02) or per environment variant (c03), each in fresh interpreter processes",
         "samples": samples, "violations": violations,
         "known_hits": ["bounded:%s (%d cases, e.g. %s)" % (c, len(w), w[0][:170]) for c, w in sorted(known.items())],
